@@ -151,6 +151,8 @@ class JavaRenderer:
             e.tok(x[1], glue=not first)
         elif k == "this":
             e.tok("this", glue=not first)
+        elif k == "super":
+            e.tok("super", glue=not first)
         elif k == "call":
             recv, name, args = x[1], x[2], x[3]
             if recv is not None:
@@ -317,6 +319,36 @@ class JavaRenderer:
             e.nl()
             e.tok("}")
             self.events.append({"e": "exitStmtScope"})
+        elif k == "switch_arrow":
+            # Java 14+: `switch (x) { case 1 -> stmt; default -> { ... } }` used as a statement (a switch expression in the grammar);
+            # only generated for the bad-smell pass (no scope events for the full listener)
+            e.tok("switch")
+            self.cond(s[1], 1, [])
+            if top:
+                fn["switchSize"] += 1
+            e.tok("{")
+            e.indent += 1
+            for i, body in enumerate(s[2]):
+                e.nl()
+                if i + 1 < len(s[2]) or len(s[2]) == 1:
+                    e.tok("case")
+                    e.tok(str(i + 1))
+                else:
+                    e.tok("default")
+                e.tok("->")
+                e.tok("{")
+                e.indent += 1
+                for b in body:
+                    e.nl()
+                    self.stmt(b, fn, top=False)
+                e.indent -= 1
+                e.nl()
+                e.tok("}")
+            e.indent -= 1
+            e.nl()
+            e.tok("}")
+            if s[3]:
+                e.tok(";", glue=True)
         elif k == "try":
             e.tok("try")
             self.block(s[1], fn)
@@ -522,6 +554,8 @@ def expr_text(x):
         return x[1].replace(" ", "") if k == "name" else x[1]
     if k == "this":
         return "this"
+    if k == "super":
+        return "super"
     if k == "call":
         return (expr_text(x[1]) + "." if x[1] is not None else "") + x[2] + "(" + ",".join(expr_text(a) for a in x[3]) + ")"
     if k == "new":
